@@ -140,13 +140,40 @@ def r1_number_arms(rep, ctx):
             v = r.value
             ok = isinstance(v, ast.Call) and _is_own_cwq(ares, v.func)
             rep.check(ok, "C09.R1", "Array._DoOperation:%s" % norm(ast.unparse(r))[:60], "the result is a new object of the operand's class built with a quantity", "Array._DoOperation can return `%s`" % ast.unparse(v), node=r, fn=afn)
-    for st in own_statements(afn.node):
-        if isinstance(st, ast.Assign) and isinstance(st.targets[0], ast.Name) and st.targets[0].id in ("q1", "q2") and "CreateEmpty" in ast.unparse(st.value):
-            par = st._parent
-            side = st.targets[0].id[-1]
-            guard = ast.unparse(par.test) if isinstance(par, ast.If) else ""
-            ok = ("IsNumber(p%s)" % side) in guard and ("isinstance(p%s, numpy.ndarray)" % side) in guard
-            rep.check(ok, "C09.R1", "Array._DoOperation:empty-on-own-side:q%s" % side, "the empty quantity stands for the number/ndarray operand on its own side", "q%s gets the empty quantity under `%s`" % (side, guard), node=st, fn=afn)
+    # the empty quantity stands for a number / ndarray operand on that operand's own side: wherever the k-th quantity
+    # handed to the database operation can be the empty quantity, that value was chosen on a path that passed a
+    # positive "operand k is a number" or "operand k is an ndarray" test (by exclusion on the flow graph)
+    acfg = CFG(afn.node)
+    AP = {p: i for i, p in enumerate(afn.params)}
+
+    def operand_test(e, k):
+        t = ares.term(e)
+        pk = ("param", AP.get("p%d" % k), "p%d" % k)
+        if t[0] == "call" and t[1] == ("name", "IsNumber") and t[2] == (pk,):
+            return True
+        return t[0] == "call" and t[1] == ("name", "isinstance") and len(t[2]) == 2 and t[2][0] == pk and any(x[0] == "attr" and x[2] == "ndarray" or x == ("name", "ndarray") for x in walk(t[2][1]))
+
+    seen_sides = set()
+    for c in own_nodes(afn.node):
+        if not (isinstance(c, ast.Call) and len(c.args) == 4 and any(x[0] == "call" and x[1] == ("name", "getattr") for x in alternatives(ares.term(c.func)))):
+            continue
+        for k in (1, 2):
+            arg = c.args[k - 1]
+            if not isinstance(arg, ast.Name):
+                continue
+            pos_edges = {(nid, b_, l_) for nid in acfg.nodes("test") if operand_test(acfg.ast[nid], k) for (b_, l_) in acfg.succ[nid] if l_ == "T"}
+            for ost, ot in ares.origins(arg):
+                if ost is None or not any(x[0] == "call" and x[1][0] == "attr" and x[1][2] == "CreateEmpty" for x in alternatives(ot)):
+                    continue
+                if ("%d" % k) in seen_sides:
+                    continue
+                seen_sides.add("%d" % k)
+                site = acfg.node_of(ost)
+                ok = bool(pos_edges) and site not in acfg.reach(acfg.ENTRY, avoid_edges=pos_edges)
+                rep.check(ok, "C09.R1", "Array._DoOperation:empty-on-own-side:q%d" % k, "the empty quantity stands for the number/ndarray operand on its own side",
+                          "quantity %d of the operation can be the empty quantity on a path where operand %d was not found to be a number or an ndarray (`%s`)" % (k, k, norm(ast.unparse(ost))[:60]), node=ost, fn=afn)
+    rep.check(seen_sides == {"1", "2"}, "C09.R1", "Array._DoOperation:empty-quantity-both-sides", "a number / ndarray may stand on either side: both quantities of the operation can be the empty quantity",
+              "only side(s) %s of the operation can take the empty quantity: a number on the other side of an Array is not handled" % sorted(seen_sides), fn=afn)
 
 
 def _is_own_cwq(res, f):
